@@ -92,6 +92,21 @@ pub extern "C" fn main(argc: c_int, argv: *const *const c_char, envp: *const *co
         rp.extend_from_slice(b".rep");
         return mode_report(argc, argv, envp, &rp, &flags, &exe);
     }
+    {
+        // command-position evaluation of printed command lines (C19): dump the complete argv and leave
+        let v = unsafe { libc::getenv(b"VCHILD_DUMP\0".as_ptr() as *const c_char) };
+        if !v.is_null() {
+            let path = unsafe { CStr::from_ptr(v).to_bytes().to_vec() };
+            let rep = Rep::open(&path);
+            let mut out = Vec::new();
+            for i in 0..argc as isize {
+                out.extend_from_slice(arg_bytes(argv, i));
+                out.push(0);
+            }
+            let _ = wr_all(rep.fd, &out);
+            return 0;
+        }
+    }
     if base == b"sh" {
         // stand-in for the platform shell (C16): report what the "shell" was given
         let v = unsafe { libc::getenv(b"VCHILD_REPORT\0".as_ptr() as *const c_char) };
